@@ -4,13 +4,13 @@ CONSTANTS
   Tag <- Tag2
   RevTag <- Rev2
   Delta = 10
-  DaySteps <- Days4
+  DaySteps <- Days6
   AgeCap = 91
-  MaxRefresh = 3
+  MaxRefresh = 4
   MaxRestarts = 1
   MaxWriteFaults = 2
   MaxReadFaults = 1
-  ReadFaultKinds <- RF_tomb
+  ReadFaultKinds <- RF_corrupt
   AllowSoleRecordLoss = FALSE
   AllowIntraSetCollision = FALSE
   RelevantSignersOnly = TRUE
